@@ -125,7 +125,7 @@ COLLISION_PAIRS = [
     ("a1", "a_1", "snake"), ("HTTPCode", "httpCode", "snake"), ("copy", "copy_", "any"), ("idValue", "id_value", "snake"),
     ("_from", "from", "any"), ("aB", "a_b", "snake"), ("x_", "x__", "snake"),
 ]
-CONTROL_PAIRS = [("alpha", "beta", "none"), ("fooBar", "fooBaz", "none"), ("a1", "a2", "none"), ("from", "import", "none"),
+CONTROL_PAIRS = [("type", "match", "none"), ("case", "alpha", "none"), ("alpha", "beta", "none"), ("fooBar", "fooBaz", "none"), ("a1", "a2", "none"), ("from", "import", "none"),
                  ("copy", "json", "none"), ("_x", "_y", "none"), ("Foo", "Bar", "none")]
 # variables whose PYTHON name is a local of the generated method (query / variables / response / data): the generator
 # renames its own local; the variable stays usable under its wire name
@@ -273,7 +273,8 @@ def scope_project(scope, a, b, snake):
         sdl = "type Query { one: Int two: Int }\n"
         q = f"query {a} {{ one }}\nquery {b} {{ two }}\n"
     else:
-        sdl = f"type Query {{ e(v: E): E }}\nenum E {{ {a} {b} }}\n"
+        # the values are also used as input defaults: the member reference must name the member that exists
+        sdl = f"type Query {{ e(v: E): E }}\nenum E {{ {a} {b} }}\ninput Defaults {{ x: E = {a} y: [E!] = [{b}] }}\n"
         q = "query GetIt($v: E) { e(v: $v) }\n"
     return {"sdl": sdl, "queries": q, "config": cfg}
 
@@ -399,6 +400,12 @@ def run_scope(case, scratch):
                 if set(members) != {a, b}:
                     fail(f"enum members carry values {sorted(members)} instead of {[a, b]}")
                 else:
+                    try:
+                        dumped = pkg.Defaults().model_dump(mode="json", by_alias=True)
+                        if dumped != {"x": a, "y": [b]}:
+                            fail(f"input defaults {a} / [{b}] read back as {dumped}")
+                    except Exception as exc:  # noqa: BLE001
+                        fail(f"input with enum defaults {a} / [{b}] cannot be built: {exc!r}")
                     for val in (a, b):
                         v, exc = e2e.run_call(pcase, method, {params[0]: members[val]})
                         if exc is not None or sent[-1]["variables"] != {"v": val} or v.e is not members[val]:
